@@ -14,5 +14,5 @@ for c in "$@"; do
   echo "$out" | grep '^VIOLATION' | head -3
   echo "$out" > /verif/.build/seedlog_${NAME}_$c.log
 done
-git -C /repo checkout -- .
+git -C /repo checkout -- .; git -C /repo clean -fdq src
 cp .build/evidence_backup/*.json evidence/ 2>/dev/null
